@@ -1,6 +1,7 @@
 package main
 
 import (
+	"sync"
 	"context"
 	"encoding/json"
 	"errors"
@@ -213,6 +214,63 @@ func permanentInPlaceProbe(given map[string]interface{}) bool {
 			return b.DeleteExcept("nothing")
 		},
 	}
+	// two executions of one shared action overlap (a compiled spec's actions are shared by all its
+	// machines): each gets its own permanent bindings back
+	{
+		var inside, release sync.WaitGroup
+		inside.Add(2)
+		release.Add(1)
+		shared := &core.FuncAction{F: func(ctx context.Context, b match.Bindings, props core.StepProps) (*core.Execution, error) {
+			inside.Done()
+			release.Wait()
+			return core.NewExecution(match.Bindings{"done": true}), nil
+		}}
+		results := make([]match.Bindings, 2)
+		inputs := []match.Bindings{
+			match.Bindings(gen.DeepCopy(given).(map[string]interface{})),
+			{"keep!": "the other machine's", "only!": 1.0},
+		}
+		var wg sync.WaitGroup
+		for k := 0; k < 2; k++ {
+			wg.Add(1)
+			go func(k int) {
+				defer wg.Done()
+				defer func() { recover() }()
+				if exe, err := shared.Exec(context.Background(), inputs[k], nil); err == nil && exe != nil {
+					results[k] = exe.Bs
+				}
+			}(k)
+		}
+		waited := make(chan bool)
+		go func() { inside.Wait(); close(waited) }()
+		select {
+		case <-waited:
+		case <-time.After(2 * time.Second):
+			// the executions are serialised: nothing overlaps, nothing to judge
+		}
+		release.Done()
+		wg.Wait()
+		for k := 0; k < 2; k++ {
+			if results[k] == nil {
+				return false
+			}
+			for key, v := range inputs[k] {
+				if strings.HasSuffix(key, "!") {
+					got, have := results[k][key]
+					if !have || gen.Canon(got) != gen.Canon(v) {
+						return false
+					}
+				}
+			}
+			for key := range results[k] {
+				if strings.HasSuffix(key, "!") {
+					if _, mine := inputs[k][key]; !mine {
+						return false
+					}
+				}
+			}
+		}
+	}
 	for _, mut := range mutators {
 		bs := match.Bindings(gen.DeepCopy(given).(map[string]interface{}))
 		before := map[string]string{}
@@ -305,6 +363,11 @@ func nativeAction(p *gen.Prog) *core.FuncAction {
 				}
 				m[op[2].(string)] = copyNested(op[3])
 				work[k] = m
+				mutated = true
+			case "pollute":
+				// nothing to change in Go
+			case "forin":
+				work[op[1].(string)] = 2.0
 				mutated = true
 			case "markdeep":
 				k := op[1].(string)
